@@ -81,6 +81,36 @@ def random_net(rng, nmin, nmax, small=False):
             "profile": rng.choice(["car", "car", "bus", "walk"])}
 
 
+def star_net(rng):
+    """A hub with many arms of very different costs, short cuts between arm ends and streets beyond them: the frontier
+    holds five and more points at once and points on it are reached again by cheaper routes (decrease-key deep
+    inside the heap), which sparse random networks hardly ever do."""
+    k = rng.randint(5, 9)
+    n = 1 + k + rng.randint(2, 6)
+    ways = []
+    costs = [rng.choice([1, 2, 5, 10, 20, 30, 40, 50]) for _ in range(k)]
+    order = list(range(k))
+    rng.shuffle(order)
+    for i in order:
+        ways.append({"pts": [0, 1 + i], "w": costs[i], "kind": "res"})
+    # second, much cheaper streets from the hub to some arm ends (the end is pushed at the dear price and improved while
+    # the hub is still being expanded) and short cuts from there to other arm ends
+    for a in rng.sample(range(1, 1 + k), rng.randint(1, 3)):
+        ways.append({"pts": [0, a], "w": rng.choice([1, 2, 3, 4, 6, 7]), "kind": "res"})
+        for b in rng.sample([x for x in range(1, 1 + k) if x != a], rng.randint(1, 2)):
+            ways.append({"pts": [a, b], "w": 1, "kind": "res"})
+    for _ in range(rng.randint(0, k)):
+        a, b = rng.sample(range(1, 1 + k), 2)
+        ways.append({"pts": [a, b], "w": rng.choice([1, 1, 2, 3, 5, 8]), "kind": rng.choice(["res", "res", "one"])})
+    for p in range(1 + k, n):
+        ways.append({"pts": [rng.randint(1, k), p], "w": rng.randint(1, 9), "kind": "res"})
+        if rng.random() < 0.5:
+            ways.append({"pts": [rng.randint(1, p - 1), p], "w": rng.randint(1, 9), "kind": "res"})
+    rng.shuffle(ways)
+    return {"n": n, "ways": ways, "origin": 0, "limit": 1000, "to": -1 if rng.random() < 0.7 else rng.randint(1, n - 1),
+            "profile": "car"}
+
+
 def batches(world, subs, size, first_id):
     out = []
     for i in range(0, len(subs), size):
@@ -164,7 +194,10 @@ def run(ctx):
 
     # ---- 3. large seeded random networks (oracle: Bellman-Ford in the adapter; TLC validates a sample below)
     nrand = ctx.pick(300, 2500)
-    rnd = [with_names(random_net(rng, *ctx.pick((10, 40), (30, 100))), rng, report=True) for _ in range(nrand)]
+    rnd = [with_names(random_net(rng, *ctx.pick((10, 40), (30, 100))) if i % 3 else star_net(rng), rng, report=True)
+           for i in range(nrand)]
+    rnd += [with_names(star_net(rng), rng, report=True) for _ in range(ctx.pick(500, 4000))]
+    nrand = len(rnd)
     for c in rnd:
         ctx.distinct_cases.add(net_key(c))
     rnd_first = len(jobs)
